@@ -3,7 +3,7 @@
    positive and Byte.byte stay the extracted inductive types. *)
 Require Extraction.
 Require Import ExtrOcamlBasic.
-From JP Require Import Bytes Json Text Strings Den Pointer Rfc6902 Rfc7396 ImplV5 ImplMerge Domain.
+From JP Require Import Bytes Json Text Strings Scan Den Pointer Rfc6902 Rfc7396 ImplV5 ImplMerge Domain ImplV4.
 From JP.gen Require Import ScannerGen.
 Extraction Language OCaml.
 Set Extraction Optimize.
@@ -15,4 +15,6 @@ Extraction "model.ml"
   ImplMerge.api_merge ImplMerge.api_create
   Domain.den_op Domain.in_domain_C01 Domain.root_container Domain.dialect_of Domain.c14_path_ok
   Domain.canonical_spelling Domain.pointer_ok
+  ImplV4.api_apply4 ImplV4.api_decode4 ImplV4.api_merge4 ImplV4.api_equal4 ImplV4.mkOpts4
+  Scan.valid_gen Scan.compact_go Scan.indent_go
   ScannerGen.scanner_reset ScannerGen.step_fn ScannerGen.scanner_eof ScannerGen.mkScanner.
